@@ -52,11 +52,14 @@ void Normalizer::CollectLocals(const SyntaxTree::Node& root) {
 }
 
 void Normalizer::Quantifier(SyntaxTree::Node& quant) {
-  if (quant(0).token.id == TokenID::NT_ENUM_DECL) {
+  const auto enumerated = quant(0).token.id == TokenID::NT_ENUM_DECL;
+  if (enumerated) {
     EnumDeclaration(quant);
   }
   if (quant(0).token.id == TokenID::NT_TUPLE_DECL) {
-    TupleDeclaration(quant(0), quant(2));
+    // Note: after the split the body is the quantifier over the remaining variables;
+    // its copy of the domain is outside the scope of the pattern
+    TupleDeclaration(quant(0), enumerated ? quant(2)(2) : quant(2));
   }
 }
 
